@@ -237,6 +237,33 @@ func modeAlphabet(full bool) []modeCall {
 			with("With(k,v)", func(t *slog.Entry) *slog.Entry { return t.With("req", 7) }, func(s Format) Format { return s }),
 			with("WithAttrs(attr)", func(t *slog.Entry) *slog.Entry { return t.WithAttrs(slog.String("peer", "10.0.0.1")) }, func(s Format) Format { return s }),
 			with("WithAttrs1(attrs)", func(t *slog.Entry) *slog.Entry { return t.WithAttrs1(slog.NewAttrs("a1", 1, "a2", 2.5)) }, func(s Format) Format { return s }),
+			// a mode call handed an EMPTY list of booleans (a slice the application filters its flags into: empty, not nil)
+			// is a mode call without arguments
+			set("SetJSONMode(empty list...)", func(t *slog.Entry) *slog.Entry { return t.SetJSONMode(make([]bool, 0, 1)...) }, jsonNext(true)),
+			set("SetColorMode(empty list...)", func(t *slog.Entry) *slog.Entry { return t.SetColorMode([]bool{}...) }, colorNext(true)),
+			with("WithJSONMode(empty list...)", func(t *slog.Entry) *slog.Entry { return t.WithJSONMode([]bool{}...) }, jsonNext(true)),
+			// New(name, attributes..., mode option): options may follow attributes (the doc comment of New shows that order)
+			modeCall{"New(name,k,v,Attr,WithJSONMode())", func(t *slog.Entry, seq int) (*slog.Entry, bool) {
+				return t.New(fmt.Sprintf("opta%d", seq), "k", 1, slog.Int("n", 2), slog.WithJSONMode()), true
+			}, jsonNext(true)},
+			// a line that holds < and & through a std log bridge on the logger (not a mode call): a record of the logger's format
+			set("a line with < and & through a std log bridge", func(t *slog.Entry) *slog.Entry {
+				bl := slog.NewLogLogger(t, slog.InfoLevel)
+				var got []byte
+				for _, e := range capture(c11log, func() { bl.Print("shape-probe: a < b && c") }) {
+					got = append(got, e.Data...)
+				}
+				want := FLogfmt
+				if t.JSONMode() {
+					want = FJSON
+				} else if t.ColorMode() {
+					want = FColor
+				}
+				if f, ok := classify(got, false); len(got) > 0 && (!ok || f != want) {
+					c11clash = fmt.Sprintf("a line that holds < and & sent through a std log bridge on a %v logger came out as %q (%s)", want, clip(string(got), 160), map[bool]string{true: "a whole " + f.String() + " record", false: "not a whole record of any of the three formats"}[ok])
+				}
+				return t
+			}, func(s Format) Format { return s }),
 			// the package-level Reset() ("clear user settings": flags and the default level) while THIS logger is the
 			// process's default logger: no mode call, on nobody
 			set("slog.Reset() while the logger is the default logger", func(t *slog.Entry) *slog.Entry {
